@@ -29,6 +29,9 @@ structure Srv where
   kind : SrvKind
   addr : Nat
   listenFail : Bool
+  /-- its `Stop()` returns an error (for the http server: the drain timed out).  `Instance.Stop` logs it and goes on to the
+  remaining servers, so it has no effect on the trace. -/
+  stopErr : Bool := false
 deriving DecidableEq, Repr
 
 /-- `s.server.(GracefulServer)` succeeds -/
@@ -131,7 +134,7 @@ def load (g : Nat) (c : Cfg) (isRestart : Bool) (fds : List Nat) : List Event ×
     (andThen (runCbs .su g (c.fail == .startup))
       (andThen (listenLoop g fds 0 c.servers) (serves g c.servers.length, true)))
 
-/-- `Instance.Stop`: `Stop()` on every GracefulServer, in order -/
+/-- `Instance.Stop`: `Stop()` on every GracefulServer, in order — all of them, whatever errors they return -/
 def stopLoop (g : Nat) : Nat → List Srv → List Event
   | _, [] => []
   | k, s :: rest => if s.graceful then .stop g k :: stopLoop g (k + 1) rest else stopLoop g (k + 1) rest
